@@ -111,6 +111,50 @@ mod verif_driver_ops {
         println!("VERIF-CASES fn=time_to_slot n={n}");
     }
 
+    // ---- C14 / C02: the compiler-evaluated built-ins are total on every operand a client-sent IR can hold: integers of any size
+    // (beyond u64 and up to i128::MIN / MAX), values that are not numbers, several chain tips - Ok or Err, never a panic; a
+    // slot or time the conversion accepts gives the exact value.
+    // BOUND: 4 operations x 24 operands x 3 chain tips.
+    #[test]
+    fn reduce_op_is_total() {
+        use tx3_tir::compile::Compiler as _;
+        use tx3_tir::model::v1beta0 as tir;
+        let mut n = 0;
+        let p = |k: u32| 1i128 << k;
+        let mut operands: Vec<(String, tir::Expression)> = vec![];
+        for v in [0i128, 1, -1, 999, 1_000, p(32), p(63) - 1, p(63), p(64) - 1, p(64), p(64) + 1, p(100), i128::MAX / 1000 - 1, i128::MAX / 1000 + 1_000_000, i128::MAX, i128::MIN, -p(64)] {
+            operands.push((format!("Number({v})"), tir::Expression::Number(v)));
+        }
+        operands.push(("None".into(), tir::Expression::None));
+        operands.push(("Bytes".into(), tir::Expression::Bytes(vec![1; 28])));
+        operands.push(("Bytes(27)".into(), tir::Expression::Bytes(vec![1; 27])));
+        operands.push(("String".into(), tir::Expression::String("1".into())));
+        operands.push(("Assets([])".into(), tir::Expression::Assets(vec![])));
+        operands.push(("Assets([5])".into(), tir::Expression::Assets(vec![tir::AssetExpr { policy: tir::Expression::None, asset_name: tir::Expression::None, amount: tir::Expression::Number(5) }])));
+        operands.push(("Hash(28)".into(), tir::Expression::Hash(vec![7; 28])));
+        for (slot, timestamp) in [(1_000u64, 5_000_000u64), (0, 0), (u64::MAX, u64::MAX)] {
+            let c = crate::Compiler::new(pp(44, 155381), crate::Config { extra_fees: None }, crate::ChainPoint { slot, hash: vec![], timestamp: timestamp as u128 });
+            for (od, o) in &operands {
+                for (name, op) in [("slot_to_time", tir::CompilerOp::ComputeSlotToTime(o.clone())), ("time_to_slot", tir::CompilerOp::ComputeTimeToSlot(o.clone())),
+                                   ("min_utxo", tir::CompilerOp::ComputeMinUtxo(o.clone())), ("build_script_address", tir::CompilerOp::BuildScriptAddress(o.clone()))] {
+                    n += 1;
+                    let input = format!("{name}({od}) with the chain tip at slot {slot}, time {timestamp} class=compiler-op-operand");
+                    match quiet(|| c.reduce_op(op.clone()).map_err(|e| e.to_string())) {
+                        Err(pn) => witness(&format!("c14_ops/{}#reachable-panic", if name == "slot_to_time" || name == "time_to_slot" { name } else { "compute_min_utxo" }), if name == "slot_to_time" || name == "time_to_slot" { name } else { "compute_min_utxo" }, input, format!("panic:{}", pn.chars().take(100).collect::<String>()), "Ok or Err"),
+                        Ok(Ok(tir::Expression::Number(got))) => if let tir::Expression::Number(v) = o {
+                            let want = match name { "slot_to_time" => Some(timestamp as i128 + (*v - slot as i128) * 1000), "time_to_slot" => Some(slot as i128 + (*v - timestamp as i128) / 1000), _ => None };
+                            if let Some(w) = want { if got != w { witness(&format!("c02_ops/{name}#postcondition"), name, input, format!("{got}"), &format!("{w} (or an error)")); } }
+                        },
+                        Ok(_) => {}
+                    }
+                }
+            }
+        }
+        println!("VERIF-CASES fn=slot_to_time n={n}");
+        println!("VERIF-CASES fn=time_to_slot n={n}");
+        println!("VERIF-CASES fn=compute_min_utxo n={n}");
+    }
+
     #[test]
     fn min_utxo_index() {
         let mut n = 0;
